@@ -50,6 +50,8 @@ def write_replay(pid, tier, seed, v):
     os.makedirs(d, exist_ok=True)
     body = {"property": pid, "tier": tier, "seed": seed, "signature": v["signature"],
             "message": v["message"], "case": _jsonable(v["case"])}
+    if v.get("replay_unit") is not None:
+        body["unit"] = _jsonable(v["replay_unit"])
     sha = hashlib.sha1(json.dumps(body["case"], sort_keys=True).encode()).hexdigest()[:12]
     path = os.path.join(d, sha + ".json")
     with open(path, "w") as f:
@@ -112,6 +114,10 @@ def main(argv=None):
             acc = core.Acc()
             core._worker_init(module.__name__)
             module.check_case(body["case"], acc)
+            if body.get("unit") is not None and body.get("signature") not in acc.viol_count:
+                # history-dependent violation: replay the whole unit (the recorded case sequence) in this fresh process
+                acc = core.Acc()
+                module.run_unit(body["unit"], acc)
             n_units = 1
         else:
             acc = core.explore(module, tier, seed, a.workers)
@@ -154,9 +160,22 @@ def main(argv=None):
                 print("HARNESS-ERROR replay of a violation crashed: %r" % (e,))
                 scratch.cleanup()
                 return 2
+            if v["signature"] not in acc2.viol_count and v.get("unit") is not None:
+                # not reproducible from the case alone: it may depend on the cases executed before it in its unit;
+                # re-run that unit once in this process (which has executed nothing of the library yet)
+                acc3 = core.Acc()
+                try:
+                    module.run_unit(json.loads(json.dumps(_jsonable(v["unit"]))), acc3)
+                except Exception as e:
+                    print("HARNESS-ERROR replay of a unit crashed: %r" % (e,))
+                    scratch.cleanup()
+                    return 2
+                if v["signature"] in acc3.viol_count:
+                    v["replay_unit"] = v["unit"]
+                    acc2 = acc3
             if v["signature"] not in acc2.viol_count:
                 print("HARNESS-ERROR violation %s did not reproduce from its dumped case" % v["signature"])
-                print(json.dumps(_jsonable(v), indent=1)[:3000])
+                print(json.dumps(_jsonable({k: x for k, x in v.items() if k != "unit"}), indent=1)[:3000])
                 scratch.cleanup()
                 return 2
             path = write_replay(pid, tier, seed, v)
